@@ -918,6 +918,75 @@ def blocksOf : List MOp → List Block
 def drvFast (all : Bool) : FastPath :=
   { nonzero := fun e => !e.isEmpty, similar := fun a b => all || a.head? == b.head?, maxRecent := 10 }
 
+/-! ### one transaction of a stored block altered in place; a Merkle variant that loses odd inner nodes
+
+  `merkle_root` (above: `merkleLevel` / `merkleLoop`) gives EVERY level of the tree the treatment of an odd last
+  node: `level.chunks(2)` yields a final chunk of one, which is hashed with itself.  That is what makes every leaf
+  feed the root.  The variant below is the tempting simplification "pad the leaves to an even number once, then
+  fold pairs": `chunks_exact(2)` has no final chunk of one, so the last node of every odd INNER level (3 nodes above
+  5 or 6 leaves, 5 above 9 or 10, 3 above 11 or 12, …) is dropped together with every transaction below it.  Kept
+  only for the regression witnesses in `Props5.lean`. -/
+
+/-- transaction `k` of the block replaced by `t` (the stored record rewritten; header untouched) -/
+def Block.setTx (b : Block) (k : Nat) (t : Tx) : Block := { b with txs := b.txs.set k t }
+
+/-- `level.chunks_exact(2)`: pairs only, a remaining single node is ignored -/
+def merkleLevelExact (C : Crypto) : List (List Nat) → List (List Nat)
+  | a :: b :: rest => C.hash (a ++ b) :: merkleLevelExact C rest
+  | _ => []
+
+def merkleLoopExact (C : Crypto) : Nat → List (List Nat) → List Nat
+  | _, [] => C.zero
+  | _, [a] => a
+  | 0, a :: _ => a
+  | fuel + 1, level => merkleLoopExact C fuel (merkleLevelExact C level)
+
+/-- VARIANT of `merkleRoot`: the leaf level padded once (last leaf repeated when their number is odd), every level
+    folded with `chunks_exact(2)` -/
+def merkleRootDropsOddIntermediateNode (C : Crypto) (leaves : List (List Nat)) : List Nat :=
+  match leaves with
+  | [] => C.zero
+  | [a] => a
+  | _ =>
+    let level := if leaves.length % 2 = 1 then leaves ++ leaves.getLast?.toList else leaves
+    merkleLoopExact C level.length level
+
+/-- VARIANT of `txRoot` over it -/
+def txRootDropsOddIntermediateNode (C : Crypto) (txs : List Tx) : List Nat :=
+  match txs with
+  | [] => C.zero
+  | _ => merkleRootDropsOddIntermediateNode C (txs.map fun t => C.hash t.enc)
+
+/-- `checkLink` / `verifyFrom` / `verifyChain` with the function that recomputes a block's transaction root as a
+    parameter (`verifyChainR C (txRoot C) = verifyChain C`, proved in `Lemmas8.lean`) -/
+def checkLinkR (C : Crypto) (root : List Tx → List Nat) (reg : Option (List (List Nat × Nat))) (prev b : Block) :
+    Option VerifyErr :=
+  if b.header.height ≠ prev.header.height + 1 then some .height
+  else if b.header.prevHash ≠ prev.header.hash C then some .prevHash
+  else if b.header.txRoot ≠ root b.txs then some .txRoot
+  else if b.header.timestamp < prev.header.timestamp then some .timestamp
+  else if regSigOk C reg b.header then none else some .badSig
+
+def verifyFromR (C : Crypto) (root : List Tx → List Nat) (reg : Option (List (List Nat × Nat))) (s : List (SKey × SVal)) :
+    Block → Nat → Nat → Option VerifyErr
+  | _, _, 0 => none
+  | prev, h, n + 1 =>
+    match blockAt s h with
+    | none => some (.notFound h)
+    | some b =>
+      match checkLinkR C root reg prev b with
+      | some e => some e
+      | none => verifyFromR C root reg s b (h + 1) n
+
+def verifyChainR (C : Crypto) (root : List Tx → List Nat) (reg : Option (List (List Nat × Nat))) (c : ChainSt) :
+    Option VerifyErr :=
+  if c.height = 0 then none
+  else match blockAt c.store 0 with
+    | none => some .emptyChain
+    | some g =>
+      if g.header.txRoot ≠ root g.txs then some .txRoot
+      else verifyFromR C root reg c.store g 1 c.height
+
 /-! ### the driver's concrete crypto: injective encodings -/
 
 def drvCrypto : Crypto :=
